@@ -8,6 +8,7 @@ import json
 from .common import LEAN, SRC, VERIF, add_failure, bump
 
 GEN_FILE = LEAN / "CogentModel" / "Gen" / "C10Registry.lean"
+GEN_RICH = LEAN / "CogentModel" / "Gen" / "C10Rich.lean"
 
 
 def generate(ctx):
@@ -24,7 +25,18 @@ def generate(ctx):
     ctx.notes.append(f"c10_registry2lean: {json.dumps(info)}")
     if lean is not None and T.write_if_changed(GEN_FILE, lean):
         ctx.notes.append("Gen/C10Registry.lean was rewritten (registry / dispatch loop / emitting classes differ from the last generated text)")
-    return [f"c10_registry2lean: {p}" for p in problems]
+    out = [f"c10_registry2lean: {p}" for p in problems]
+    # the integer / decision part of the three view exporters
+    from translator import c10_rich2lean as R
+
+    try:
+        lean, info, problems = R.translate(SRC)
+    except (R.TranslationError, SyntaxError, OSError) as e:
+        return out + [f"c10_rich2lean: {e}"]
+    ctx.notes.append(f"c10_rich2lean: {json.dumps(info)}")
+    if lean is not None and R.write_if_changed(GEN_RICH, lean):
+        ctx.notes.append("Gen/C10Rich.lean was rewritten (exporter source differs from the last generated text)")
+    return out + [f"c10_rich2lean: {p}" for p in problems]
 
 
 def _real_pick(deserialise, keys, type_str):
